@@ -65,6 +65,10 @@ def _world(il1, il2, ie4, t1, t2, dep, missing, e_newer, ext=False):
     if missing:
         lreq.append({'id': 'M', 'version': '9'})
     lex_l = _lexicon('L', [_ss('l1', il1, [('also', 'l2')]), _ss('l2', il2), _ss('l3', 'in')], lreq)
+    # a word so that the synsets of L can also be reached by form
+    lex_l['entries'] = [{'id': 'le', 'meta': None, 'lemma': {'writtenForm': 'wa', 'partOfSpeech': 'n'},
+                         'senses': [{'id': 'ls1', 'synset': 'l1', 'meta': None},
+                                    {'id': 'ls2', 'synset': 'l2', 'meta': None}]}]
     lex_e = _lexicon('E', [_ss('e1', 'i1', [('hypernym', t1)]), _ss('e2', 'i2', [('hypernym', t2)]),
                            _ss('e3', 'i3'), _ss('e4', ie4)])
     lex_e2 = _lexicon('E2', [_ss('f1', 'i1', [('similar', 'f2')]), _ss('f2', 'i2')])
@@ -160,6 +164,12 @@ def h_expand(k1: int, k2: int, k4: int, kt1: int, kt2: int, kmode: int, dep: boo
                for r, t in ss._iter_relations()]
         n = len(own)
         ok = ok and [g[:5] for g in got[:n]] == own
+        if x != 'l3':
+            # the same synset reached by a form that only matches after normalisation (second
+            # pass of the lookup) expands in the same way
+            alt = [s for s in w.synsets('WA') if s.id == x and s.lexicon().id == 'L'][0]
+            ok = ok and [(r.name, t.id, r.source_id, r.target_id, r.lexicon().specifier(), t._ili)
+                         for r, t in alt._iter_relations()] == got
         ok = ok and sorted(got[n:], key=repr) == sorted(borrowed, key=repr)
         # get_related: the same targets without duplicates; placeholders carry the ILI and are
         # reported as synsets of L
